@@ -231,10 +231,84 @@ def eocd_evaluate(ctx):
     for (line, want, site, tag, src), g in zip(EOCD, got):
         ctx.case(('eocd', line), nontrivial=True)
         if g != want:
-            ctx.fail('correspondence', 'zipfile._EndRecData vs endRecData', f'{tag}: every prefix',
-                     f'{site}: prefixes at which an end record is found: implementation `{want[:120]}`, model `{g[:120]}`', detail=dict(source=src))
+            ctx.fail('correspondence', site if ' vs ' in site else 'zipfile._EndRecData vs endRecData', f'{tag}: every prefix',
+                     f'{site}: prefixes at which it succeeds: implementation `{want[:120]}`, model `{g[:120]}`', detail=dict(source=src))
     del EOCD[:]
 
+
+
+def zip_prefix_opens(ctx, data, oracle, site, tag, spec):
+    """every prefix of a small file: does the archive OPEN (end record found, directory walked, every member read and
+    CRC-checked)?  zipfile vs the byte-level model `zipOpen (readDirBytes …)`"""
+    hits = []
+    for j in range(len(data) + 1):
+        try:
+            zf = zipfile.ZipFile(io.BytesIO(data[:j]))
+            for nm in zf.namelist():
+                zf.read(nm)
+            hits.append(j)
+        except Exception:  # noqa
+            pass
+    EOCD.append((f'zipreadall {F.hx(data)} {oracle}', ranges_of(hits), site, tag + ' (archive opens and every member reads)', F.emit(spec)))
+
+
+def ranges_of(hits):
+    out, cur = [], None
+    for j in hits:
+        if cur is not None and j == cur[1] + 1:
+            cur[1] = j
+        else:
+            if cur is not None:
+                out.append(f'{cur[0]}..{cur[1]}')
+            cur = [j, j]
+    if cur is not None:
+        out.append(f'{cur[0]}..{cur[1]}')
+    return ','.join(out) or '-'
+
+
+def npy_prefix_parses(ctx, blob, tag, spec):
+    """every prefix of every .npy member of a blob: numpy.lib.format.read_array vs parseNpy"""
+    from numpy.lib import format as npf
+    zf = zipfile.ZipFile(io.BytesIO(blob))
+    for name in zf.namelist():
+        b = zf.read(name)
+        hits = []
+        for j in range(len(b) + 1):
+            try:
+                npf.read_array(io.BytesIO(b[:j]), allow_pickle=False)
+                hits.append(j)
+            except Exception:  # noqa
+                pass
+        ctx.tick('npy member truncated: parses only complete' if hits == [len(b)] else f'npy member truncated: parses at {ranges_of(hits)} of {len(b)}')
+        if hits != [len(b)]:
+            ctx.fail('property', 'numpy.lib.format.read_array', f'{tag}: truncated .npy member',
+                     f'a proper prefix of member {name} parses as an array (prefix lengths {ranges_of(hits)} of {len(b)})',
+                     repro=F.PRELUDE + F.emit(spec) + "raise AssertionError('truncated npy member parsed')\n")
+        EOCD.append((f'npyparseall {F.hx(b)}', ranges_of(hits), 'numpy.lib.format.read_array vs parseNpy', f'{tag}: every prefix of member {name}', F.emit(spec)))
+
+
+
+def tiled_prefix_opens(ctx, data, start, oracle, tag, spec_src):
+    """every prefix: the repaired loader's opener `_open_archive` (tiling check) + reading every member, vs `openTiled`"""
+    from dimod.constrained import constrained as cqm_mod
+    if not hasattr(cqm_mod, '_open_archive'):
+        ctx.tick('tiling check: _open_archive not in the source under test')
+        return
+    hits = []
+    for j in range(len(data) + 1):
+        f = io.BytesIO(data[:j])
+        f.seek(min(start, j))
+        try:
+            if j < start:
+                raise ValueError('header incomplete')
+            with cqm_mod._open_archive(f) as zf:
+                for nm in zf.namelist():
+                    zf.read(nm)
+            hits.append(j)
+        except Exception:  # noqa
+            pass
+    ctx.tick(f'tiling check {tag}: opens at ' + ('the complete file only' if hits == [len(data)] else ranges_of(hits)))
+    EOCD.append((f'ziptiledall {start} {F.hx(data)} {oracle}', ranges_of(hits), 'constrained._open_archive vs openTiled', tag, spec_src))
 
 def cqm_files(ctx, r, S, spec):
     m = F.build(spec)
@@ -246,6 +320,9 @@ def cqm_files(ctx, r, S, spec):
     add_sweep(ctx, S, spec, 'cqm', m, data, kw, f'deccqmhdr {F.hx(text)} {F.hx(data)}', exact_to=hend, tag='cqm' + (' compressed' if compress else ''))
     if len(data) <= 6000:
         eocd_prefixes(ctx, data, 'ConstrainedQuadraticModel.from_file', 'cqm whole file', spec)
+    if len(data) <= 3000:
+        zip_prefix_opens(ctx, data, C9.zip_entries(data)[1], 'zipfile.ZipFile vs zipOpen(readDirBytes)', 'cqm whole file', spec)
+        tiled_prefix_opens(ctx, data, hend, C9.zip_entries(data)[1], 'cqm whole file', F.emit(spec))
 
 
 def dqm_files(ctx, r, S, spec):
@@ -264,6 +341,10 @@ def dqm_files(ctx, r, S, spec):
               exact_to=hend + 8, tag='dqm' + (' compressed' if compress else ''))
     if len(data) <= 6000:
         eocd_prefixes(ctx, data[hend + 8:hend + 8 + ln], 'DiscreteQuadraticModel.from_file', 'dqm npz blob', spec)
+    if ln <= 2500:
+        blob = data[hend + 8:hend + 8 + ln]
+        zip_prefix_opens(ctx, blob, C9.zip_entries(blob)[1], 'zipfile.ZipFile vs zipOpen(readDirBytes)', 'dqm npz blob', spec)
+        npy_prefix_parses(ctx, blob, 'dqm npz blob', spec)
 
 
 # ------------------------------------------------------------------ expression files and the raw loaders
@@ -606,6 +687,336 @@ def corrupt_sweep_cqm(ctx, r, budget_s):
     ctx.notes.append(f'corruption sweep of CQM files (robustness): {nfiles} files in {time.time() - t0:.0f}s')
 
 
+
+# ------------------------------------------------------------------ round 7: every entry point, short reads, legacy files, adversarial payloads
+
+SHORT_SRC = r"""
+import io, sys, tempfile
+class ShortAt(io.RawIOBase):
+    '''a seekable binary file whose `at`-th read(n) call returns FEWER bytes than requested (n-1 | n//2 | 1), as a
+    pipe or raw stream may; the bytes are not lost, the next read continues where this one stopped'''
+    def __init__(self, data, at=-1, kind='one'):
+        self.b = io.BytesIO(data); self.at = at; self.kind = kind; self.calls = 0; self.owners = []
+    def readable(self): return True
+    def seekable(self): return True
+    def seek(self, *a): return self.b.seek(*a)
+    def tell(self): return self.b.tell()
+    def read(self, n=-1):
+        if n is None or n < 0:
+            return self.b.read()
+        i = self.calls; self.calls += 1
+        self.owners.append(sys._getframe(1).f_globals.get('__name__', ''))      # the module that issued this read
+        if i == self.at and n > 1:
+            return self.b.read({'minus1': n - 1, 'half': max(1, n // 2), 'one': 1}[self.kind])
+        return self.b.read(n)
+    def readinto(self, buf):
+        d = self.read(len(buf)); buf[:len(d)] = d; return len(d)
+
+def spooled(data, max_size):
+    f = tempfile.SpooledTemporaryFile(max_size=max_size)
+    f.write(data); f.seek(0)
+    return f
+"""
+exec(SHORT_SRC)
+
+
+class Keyed:
+    """lets `sweep_prefixes` iterate over arbitrary work items: `self[:k]` is item k"""
+    def __init__(self, items):
+        self.items = items
+
+    def __len__(self):
+        return len(self.items)
+
+    def __getitem__(self, s):
+        return self.items[s.stop]
+
+
+ENTRY = {
+    'from_file(bytes)': ('{cls}.from_file(blob)', lambda cls, b: cls.from_file(b)),
+    'from_file(bytearray)': ('{cls}.from_file(bytearray(blob))', lambda cls, b: cls.from_file(bytearray(b))),
+    'from_file(BytesIO)': ('{cls}.from_file(io.BytesIO(blob))', lambda cls, b: cls.from_file(io.BytesIO(b))),
+    'from_file(SpooledTemporaryFile in memory)': ('{cls}.from_file(spooled(blob, 10**9))', lambda cls, b: cls.from_file(spooled(b, 10 ** 9))),
+    'from_file(SpooledTemporaryFile on disk)': ('{cls}.from_file(spooled(blob, 0))', lambda cls, b: cls.from_file(spooled(b, 0))),
+    'fileview.load(bytes)': ('dimod.serialization.fileview.load(blob)', lambda cls, b: C9.fv_load(b)),
+    'fileview.load(BytesIO)': ('dimod.serialization.fileview.load(io.BytesIO(blob))', lambda cls, b: C9.fv_load(io.BytesIO(b))),
+    'fileview.load(SpooledTemporaryFile on disk)': ('dimod.serialization.fileview.load(spooled(blob, 0))', lambda cls, b: C9.fv_load(spooled(b, 0))),
+}
+
+
+def make_file(r, kind):
+    """(spec, model, kind, bytes, option text, relabelled, f64, tag) of one random serialized model; every format variant"""
+    spec = F.SPECS[kind](r, False)
+    m0 = F.build(spec)
+    if kind == 'bqm':
+        ver, ign = r.choice([1, 2]), r.random() < .25
+        kw = f'version={ver}, ignore_labels={ign}'
+        return spec, m0, kind, m0.to_file(version=ver, ignore_labels=ign).read(), kw, ign, spec['dtype'] == 'object', f'bqm v{ver}'
+    if kind == 'qm':
+        return spec, m0, kind, m0.to_file().read(), '', False, False, 'qm'
+    if kind == 'cqm':
+        comp = r.random() < .4
+        return spec, m0, kind, m0.to_file(compress=comp).read(), f'compress={comp}', False, False, 'cqm' + (' compressed' if comp else '')
+    comp, ign = r.random() < .4, r.random() < .25
+    return (spec, m0, kind, m0.to_file(compress=comp, ignore_labels=ign).read(), f'compress={comp}, ignore_labels={ign}', ign, False,
+            'dqm' + (' compressed' if comp else ''))
+
+
+def pick_prefixes(r, data, limit):
+    n = len(data)
+    if n + 1 <= limit:
+        return list(range(n + 1))
+    ks = set(r.sample(range(n + 1), limit - 40)) | set(range(0, 20)) | set(range(n - 19, n + 1))
+    return sorted(ks)
+
+
+def outcome_word(rc):
+    return 'raises' if rc.startswith('e:') else 'equal' if rc == '=' else 'DIFFERENT' if rc.startswith('!') else rc
+
+
+def judge_outcome(ctx, rc, site, ic, what, repro, detail=None):
+    """(ii) on one outcome of the real code: an ordinary exception or the original model; nothing else"""
+    if rc.startswith('CRASH') or rc in ('HANG', 'MISSING'):
+        ctx.fail('crash', site, ic, f'{what}: the interpreter did not survive: {rc}', repro=repro, detail=detail)
+    elif rc.startswith('!'):
+        ctx.fail('property', site, ic, f'{what} loads as a DIFFERENT model: {rc[1:]}', repro=repro, detail=detail)
+
+
+def entry_point_sweeps(ctx, r, nfiles, per_file):
+    """truncated files through EVERY entry point the property names: from_file on bytes / bytearray / BytesIO /
+    SpooledTemporaryFile (in memory and rolled over to disk) and the generic `fileview.load`"""
+    for _ in range(nfiles):
+        kind = r.choice(['bqm', 'qm', 'cqm', 'dqm'])
+        spec, m, kind, data, kw, rel, f64, tag = make_file(r, kind)
+        cls = F.cls_of(kind)
+        names = ['from_file(bytes)'] + r.sample([n for n in ENTRY if n != 'from_file(bytes)'], 3)
+        ks = pick_prefixes(r, data, per_file)
+        items = [(nm, k) for nm in names for k in ks]
+
+        def load(item):
+            return ENTRY[item[0]][1](cls, data[:item[1]])
+        real = F.sweep_prefixes(load, judge_for(kind, m, rel, f64), Keyed(items), ks=range(len(items)))
+        base = {}
+        for i, (nm, k) in enumerate(items):
+            rc = real.get(i, 'MISSING')
+            ctx.case(('entry', nm, kind, data[:k]), nontrivial=True)
+            ctx.tick(f'entry {nm}: {tag}: {outcome_word(rc)}')
+            if nm == 'from_file(bytes)':
+                base[k] = rc
+            elif rc[:1] != base.get(k, rc)[:1]:
+                ctx.tick(f'entry {nm}: outcome class differs from from_file(bytes)')
+            expr = ENTRY[nm][0].format(cls=F.CLS[kind])
+            rp = (F.PRELUDE + F.SAME_SRC + SHORT_SRC + F.emit(spec) + f"blob = m.to_file({kw}).read()[:{k}]\n"
+                  f"try:\n    new = {expr}\nexcept Exception as e:\n    print('raised', type(e).__name__)\n"
+                  f"else:\n    d = diff_models({kind!r}, m, new, relabelled={rel}, float64_copy={f64})\n    assert d is None, d\n")
+            judge_outcome(ctx, rc, f'{cls.__name__}.{nm}' if nm.startswith('from_file') else f'{nm} ({cls.__name__})',
+                          f'{tag} cut inside {region_of(kind, data, k)}', f'the first {k} of {len(data)} bytes through {nm}', rp,
+                          dict(source=F.emit(spec), options=kw, prefix=k))
+
+
+def short_read_sweeps(ctx, r, nfiles, per_file):
+    """a file object whose read(n) returns fewer bytes than requested at ONE call (each read call of the loader in turn x
+    deficit n-1 / n//2 / 1), on complete files and on truncated ones: the loader must raise or return the original"""
+    for _ in range(nfiles):
+        kind = r.choice(['bqm', 'qm', 'qm', 'cqm', 'dqm'])
+        spec, m, kind, data, kw, rel, f64, tag = make_file(r, kind)
+        cls = F.cls_of(kind)
+        cut = len(data) if r.random() < .6 else r.randrange(len(data))
+        blob = data[:cut]
+        use_load = r.random() < .3
+        probe = ShortAt(blob)
+        try:
+            C9.fv_load(probe) if use_load else cls.from_file(probe)
+        except Exception:  # noqa
+            pass
+        ncalls = probe.calls
+        owners = probe.owners
+        ats = list(range(ncalls)) if ncalls * 3 <= per_file else sorted(r.sample(range(ncalls), per_file // 3))
+        items = [(at, kd) for at in ats for kd in ('minus1', 'half', 'one')]
+
+        def load(item):
+            f = ShortAt(blob, item[0], item[1])
+            return C9.fv_load(f) if use_load else cls.from_file(f)
+        real = F.sweep_prefixes(load, judge_for(kind, m, rel, f64), Keyed(items), ks=range(len(items)))
+        entry = 'fileview.load' if use_load else 'from_file'
+        for i, (at, kd) in enumerate(items):
+            rc = real.get(i, 'MISSING')
+            ctx.case(('short-read', entry, kind, blob, at, kd), nontrivial=True)
+            lib = owners[at].split('.')[0] if at < len(owners) and owners[at].split('.')[0] in ('zipfile', 'numpy') else None
+            if lib is not None and not (rc.startswith('CRASH') or rc in ('HANG', 'MISSING')):
+                # the read was issued by zipfile / numpy, which require read(n) to return n bytes unless the file ends
+                # (io.BufferedIOBase semantics): outside dimod's code and outside the property; robustness only
+                ctx.tick(f'short read inside {lib} (robustness only, outside the property): {outcome_word(rc)}')
+                continue
+            ctx.tick(f'short read ({"complete" if cut == len(data) else "truncated"} {tag}): {outcome_word(rc)}')
+            call = 'dimod.serialization.fileview.load' if use_load else F.CLS[kind] + '.from_file'
+            rp = (F.PRELUDE + F.SAME_SRC + SHORT_SRC + F.emit(spec) + f"blob = m.to_file({kw}).read()[:{cut}]\n"
+                  f"try:\n    new = {call}(ShortAt(blob, {at}, {kd!r}))\nexcept Exception as e:\n    print('raised', type(e).__name__)\n"
+                  f"else:\n    d = diff_models({kind!r}, m, new, relabelled={rel}, float64_copy={f64})\n    assert d is None, d\n")
+            judge_outcome(ctx, rc, f'{cls.__name__}.{entry} (file object with short reads)', f'{tag}: read call returns fewer bytes than requested',
+                          f'read call {at} of {ncalls} returning {kd} of the requested bytes ({cut} of {len(data)} bytes available)', rp,
+                          dict(source=F.emit(spec), options=kw, at=at, deficit=kd, available=cut))
+
+
+def legacy_truncations(ctx, r, per_file):
+    """the bundled CQM files of serialization versions 1.x (and 2.0) and DQM files with the minor version of the legacy
+    format: every sampled prefix through from_file and fileview.load"""
+    root = os.path.join(os.environ.get('VERIF_BUILD', ''), 'tests', 'data', 'cqm')
+    files = []
+    for fn in sorted(os.listdir(root)) if os.path.isdir(root) else []:
+        data = open(os.path.join(root, fn), 'rb').read()
+        files.append(('cqm', f'bundled {fn}', data, dimod.ConstrainedQuadraticModel.from_file(data),
+                      "import os\nblob = open(os.path.join(os.path.dirname(os.path.dirname(dimod.__file__)), 'tests', 'data', 'cqm', " + repr(fn) + "), 'rb').read()\n"))
+    for _ in range(2):
+        spec = F.spec_dqm(r)
+        m = F.build(spec)
+        data = bytearray(m.to_file().read())
+        data[9] = 0              # minor version of the format before `compress` / `ignore_labels` (1.0): same loader path
+        files.append(('dqm', 'dqm version 1.0', bytes(data), m, F.emit(spec) + "blob = bytearray(m.to_file().read()); blob[9] = 0; blob = bytes(blob)\n"))
+    for kind, tag, data, full, src in files:
+        cls = F.cls_of(kind)
+        ks = pick_prefixes(r, data, per_file)
+        items = [(nm, k) for nm in ('from_file(bytes)', 'fileview.load(BytesIO)') for k in ks]
+
+        def load(item):
+            return ENTRY[item[0]][1](cls, data[:item[1]])
+        real = F.sweep_prefixes(load, judge_for(kind, full), Keyed(items), ks=range(len(items)))
+        for i, (nm, k) in enumerate(items):
+            rc = real.get(i, 'MISSING')
+            ctx.case(('legacy', tag, nm, k), nontrivial=True)
+            ctx.tick(f'legacy {tag}: {outcome_word(rc)}')
+            expr = ENTRY[nm][0].format(cls=F.CLS[kind])
+            rp = (F.PRELUDE + F.SAME_SRC + src + f"full = {F.CLS[kind]}.from_file(blob)\nblob = blob[:{k}]\n"
+                  f"try:\n    new = {expr}\nexcept Exception as e:\n    print('raised', type(e).__name__)\n"
+                  f"else:\n    d = diff_models({kind!r}, full, new)\n    assert d is None, d\n")
+            judge_outcome(ctx, rc, f'{cls.__name__}.{nm}' if nm.startswith('from_file') else f'{nm} ({cls.__name__})',
+                          f'{tag}: truncated', f'the first {k} of {len(data)} bytes of {tag} through {nm}', rp, dict(prefix=k))
+
+
+ADV_SRC = r"""
+import io
+def embed(z):
+    '''the bytes `z`, zero-padded in FRONT to a multiple of 8, as float64 biases (so that `z` ends on a bias boundary)'''
+    z = b'\0' * (-len(z) % 8) + z
+    return z, np.frombuffer(z, dtype=np.float64).copy()
+
+def adv_dqm(inner_cases=2, bias=42.0):
+    '''a DQM whose linear biases spell the complete npz archive of ANOTHER (one-variable) DQM'''
+    inner = dimod.DiscreteQuadraticModel(); inner.add_variable(inner_cases); inner.set_linear_case(0, inner_cases - 1, bias)
+    v = inner.to_numpy_vectors(return_offset=True)
+    buf = io.BytesIO()
+    np.savez(buf, case_starts=v.case_starts, linear_biases=v.linear_biases, quadratic_row_indices=v.quadratic.row_indices,
+             quadratic_col_indices=v.quadratic.col_indices, quadratic_biases=v.quadratic.biases, offset=v.offset)
+    z, biases = embed(buf.getvalue())
+    n = len(biases)
+    outer = dimod.DiscreteQuadraticModel.from_numpy_vectors(
+        case_starts=np.arange(n, dtype=np.uint32), linear_biases=biases,
+        quadratic=(np.array([], dtype=np.uint32), np.array([], dtype=np.uint32), np.array([], dtype=np.float64)))
+    return outer, z
+
+def adv_cqm(N=200, inner_bias=1.0, compress_inner=True):
+    '''a CQM whose objective's linear biases spell the complete zip archive of ANOTHER CQM with the same header counts'''
+    inner = dimod.ConstrainedQuadraticModel(); inner.add_variables('BINARY', N)
+    inner.set_objective([(v, inner_bias) for v in range(N)])
+    idata = inner.to_file(compress=compress_inner).read()
+    z, b = embed(idata[14 + int.from_bytes(idata[10:14], 'little'):])
+    assert len(b) <= N
+    biases = list(b) + [1.0] * (N - len(b))
+    outer = dimod.ConstrainedQuadraticModel(); outer.add_variables('BINARY', N); outer.set_objective(zip(range(N), biases))
+    return outer, z
+
+def adv_record(kind, count=0, size=0, offset=0):
+    '''a model whose float64 biases spell the end record of an archive: PK\x05\x06, disk numbers, counts, size, offset, no comment'''
+    rec = b'PK\x05\x06' + bytes(4) + count.to_bytes(2, 'little') * 2 + size.to_bytes(4, 'little') + offset.to_bytes(4, 'little') + bytes(2)
+    z, biases = embed(rec)
+    if kind == 'cqm':
+        m = dimod.ConstrainedQuadraticModel(); m.add_variables('BINARY', len(biases) + 1)
+        m.set_objective(list(zip(range(len(biases)), biases)) + [(len(biases), 2.5)])
+        m.add_constraint_from_iterable([(0, 1.0), (1, 1.0)], '<=', 1.0, label='c')
+    else:
+        m = dimod.DiscreteQuadraticModel.from_numpy_vectors(
+            case_starts=np.arange(len(biases), dtype=np.uint32), linear_biases=biases,
+            quadratic=(np.array([1], dtype=np.uint32), np.array([0], dtype=np.uint32), np.array([3.5], dtype=np.float64)))
+    return m, z
+"""
+exec(ADV_SRC)
+
+
+def same_bits(kind, a, b):
+    """field-by-field equality on the BIT patterns of the biases (the adversarial payloads contain NaN patterns)"""
+    if kind == 'dqm':
+        va, vb = a.to_numpy_vectors(return_offset=True), b.to_numpy_vectors(return_offset=True)
+        return (list(a.variables) == list(b.variables) and va.case_starts.tolist() == vb.case_starts.tolist() and
+                va.linear_biases.tobytes() == vb.linear_biases.tobytes() and
+                all(x.tolist() == y.tolist() for x, y in zip(va.quadratic[:2], vb.quadratic[:2])) and
+                va.quadratic[2].tobytes() == vb.quadratic[2].tobytes() and va.offset == vb.offset)
+
+    def expr(e):
+        return (list(e.variables), np.array([e.get_linear(v) for v in e.variables]).tobytes(),
+                sorted((str(u), str(v), float(bb)) for u, v, bb in e.iter_quadratic()), e.offset)
+    return (list(a.variables) == list(b.variables) and expr(a.objective) == expr(b.objective) and list(a.constraints) == list(b.constraints) and
+            all(expr(a.constraints[c].lhs) == expr(b.constraints[c].lhs) and a.constraints[c].rhs == b.constraints[c].rhs and
+                a.constraints[c].sense is b.constraints[c].sense for c in a.constraints))
+
+
+def adversarial_payloads(ctx, r):
+    """models whose float biases spell zip structures: a bare end record (of an empty archive, and with random counts /
+    sizes / offsets) and a COMPLETE archive of another model.  The truncation theorems exclude such payloads (the signature
+    occurs before the end record); the real loaders must still never return a different model for any prefix."""
+    cases = []
+    for kind in ('cqm', 'dqm'):
+        cases.append((kind, 'payload spells the end record of an empty archive', f"m, z = adv_record({kind!r})\n", adv_record(kind)))
+        cnt, size, off = r.randrange(3), r.choice([0, 46, 100]), r.randrange(0, 400)
+        cases.append((kind, 'payload spells an end record with arbitrary counts', f"m, z = adv_record({kind!r}, {cnt}, {size}, {off})\n",
+                      adv_record(kind, cnt, size, off)))
+    ic_, b_ = r.choice([2, 3]), r.choice([42.0, -1.5])
+    cases.append(('dqm', 'payload spells a complete archive of another model', f"m, z = adv_dqm({ic_}, {b_})\n", adv_dqm(ic_, b_)))
+    N, ib = r.choice([150, 200]), r.choice([1.0, 0.5])
+    cases.append(('cqm', 'payload spells a complete archive of another model', f"m, z = adv_cqm({N}, {ib}, True)\n", adv_cqm(N, ib, True)))
+    for kind, icls, src, (m, z) in cases:
+        cls = F.cls_of(kind)
+        data = m.to_file().read()
+        pos = data.find(z)
+        if pos < 0:
+            ctx.notes.append(f'adversarial payload not found verbatim in the {kind} file ({icls})')
+            continue
+        end = pos + len(z)
+        ks = sorted(set(range(max(0, end - 30), min(len(data), end + 60))) | set(r.sample(range(len(data)), min(len(data), 150))) |
+                    set(range(max(0, len(data) - 30), len(data))))
+        entry = r.choice(['from_file(bytes)', 'fileview.load(BytesIO)', 'from_file(SpooledTemporaryFile on disk)'])
+
+        def load(b):
+            return ENTRY[entry][1](cls, b)
+
+        def judge(got):
+            return '=' if same_bits(kind, m, got) else '!' + f'{type(got).__name__} with {len(got.variables)} variables instead of {len(m.variables)}'
+        full = F.sweep_prefixes(load, judge, data, ks=[len(data)])[len(data)]
+        if full != '=':
+            ctx.fail('property', f'{cls.__name__}.to_file/from_file', f'{kind}: {icls}', f'the complete file does not load back: {full}',
+                     repro=F.PRELUDE + ADV_SRC + src + f"{F.CLS[kind]}.from_file(m.to_file())\n")
+            continue
+        real = F.sweep_prefixes(load, judge, data, ks=ks)
+        ctx.tick(f'adversarial {kind}: {icls}')
+        if kind == 'cqm' and len(data) <= 2500:
+            hend = F.split_header(data)[3]
+            tiled_prefix_opens(ctx, data, hend, C9.zip_entries(data)[1], f'adversarial cqm: {icls}', F.PRELUDE + ADV_SRC + src)
+        bad = [k for k in ks if real.get(k, 'MISSING')[:1] not in ('e', '=')]
+        for k in ks:
+            rc = real.get(k, 'MISSING')
+            ctx.case(('adversarial', kind, icls, k, data[:k][-40:]), nontrivial=True)
+            ctx.tick(f'adversarial {kind}: {outcome_word(rc)}')
+        if bad:
+            k = bad[0]
+            expr = ENTRY[entry][0].format(cls=F.CLS[kind])
+            rp = (F.PRELUDE + SHORT_SRC + ADV_SRC + src + f"data = m.to_file().read()\nblob = data[:{k}]\n"
+                  f"try:\n    new = {expr}\nexcept Exception as e:\n    print('raised', type(e).__name__)\n"
+                  f"else:\n    assert len(new.variables) == len(m.variables), 'the first {k} of %d bytes load as a model with %d variables "
+                  f"instead of %d' % (len(data), len(new.variables), len(m.variables))\n")
+            judge_outcome(ctx, real[k], f'{cls.__name__}.from_file', f'{kind}: {icls}',
+                          f'{len(bad)} of {len(ks)} explored prefixes (first: {k} of {len(data)} bytes; the embedded bytes end at {end}) through {entry}',
+                          rp, dict(prefixes=bad[:20], embedded_end=end, nbytes=len(data)))
+
+
 def run(ctx):
     r = ctx.rng
     ctx.rule = ('random BQM (v1 and v2) / QM / CQM / DQM files and expression members; a case = one (file, prefix length) pair, every '
@@ -623,6 +1034,11 @@ def run(ctx):
     eocd_evaluate(ctx)
     expr_sweeps(ctx, r, ctx.scale(20, 300), guarded_budget)
     raw_loader_cases(ctx, r, ctx.scale(120, 1500))
+    entry_point_sweeps(ctx, r, ctx.scale(10, 80), ctx.scale(160, 400))
+    short_read_sweeps(ctx, r, ctx.scale(24, 250), ctx.scale(90, 300))
+    legacy_truncations(ctx, r, ctx.scale(120, 600))
+    adversarial_payloads(ctx, r)
+    eocd_evaluate(ctx)
     if not ctx.quick:
         valgrind_sample(ctx, r, 3)
         corrupt_sweep(ctx, r, 90)
